@@ -107,12 +107,9 @@ func (cm *CMap) parseCodeSpaceRange(content string) error {
 	// Parse the first code range to determine byte width
 	// Format: <low> <high>
 	// Example: <0000> <FFFF> means 2-byte codes (4 hex digits = 2 bytes)
-	lines := strings.Split(section, "\n")
-	for _, line := range lines {
-		line = strings.TrimSpace(line)
-		if line == "" {
-			continue
-		}
+	// (the section is read as one run of tokens: the two bounds of a range
+	// may stand on different lines, or the CMap may have no line breaks)
+	for _, line := range []string{section} {
 
 		// Find hex strings
 		var hexStrings []string
